@@ -59,6 +59,11 @@ def fam_grid(ctx, rng):
         check_mesh_data(ctx, 'grid.from_grid', m, desc, False)
         return
     b = G.star_polygon(rng, n=rng.randint(3, 10), R=rng.choice([5.0, 50.0]), center=(0.0, 0.0)) if rng.random() < 0.7 else G.comb_polygon(rng, teeth=3)
+    if rng.random() < 0.2:
+        # a rectangle turned against the axes (all four corners right angles, none of its edges along x or y)
+        c_, s_, _ = G.pythagorean_angle(rng); c_, s_ = float(c_), float(s_)
+        rw, rh = G.dy(rng.uniform(2, 30)), G.dy(rng.uniform(2, 30))
+        b = [(c_ * x - s_ * y, s_ * x + c_ * y) for x, y in ((0.0, 0.0), (rw, 0.0), (rw, rh), (0.0, rh))]
     xs = [p[0] for p in b]; ys = [p[1] for p in b]
     ext = max(max(xs) - min(xs), max(ys) - min(ys))
     cell = ext * rng.choice([1 / 40.0, 1 / 17.0, 1 / 9.5, 1 / 4.0, 1 / 3.0, 0.7, 2.0])
